@@ -76,12 +76,13 @@ Coarse ==
 Fine(a) ==
     CASE Family = "C05" ->
            {[text |-> VBlockV(vers, "NO", "SPACE") \o Concat([i \in DOMAIN a |-> Block(a[i], psz, osz, st, ar, 2, 2)]), opts |-> Opts0,
-             tag |-> <<"perm", a, psz, osz, vers, ar>>] : ar \in {2, 0}, psz \in (IF Big THEN 0..2 ELSE {2}), osz \in (IF Big THEN 0..3 ELSE {2, 3}),
+             tag |-> <<"perm", a, psz, osz, vers, ar>>] : ar \in {2, 0}, psz \in (IF Big THEN 0..2 ELSE {0, 2}), osz \in (IF Big THEN 0..3 ELSE {2, 3}),
                                                      st \in Steers, vers \in {"2.0", "1.2"}}
       [] Family = "C07" ->
            IF a[1] = "dcr"
-           THEN {[text |-> VBlock("NO", "SPACE") \o WBlock("null1") \o CBlock(a[2]) \o ABlock(r, c, deco, Fin), opts |-> Opts0,
-                  tag |-> <<"dcr", a[2], c, r, deco>>] : c \in 1..MaxC, r \in 1..MaxR,
+           THEN {[text |-> VBlock("NO", "SPACE") \o WBlock("null1") \o CBlock(a[2])
+                           \o ABlock(r, c, deco, LAMBDA i, j : IF j = tcol THEN "TEXT" ELSE "FIN"), opts |-> Opts0,
+                  tag |-> <<"dcr", a[2], c, r, deco, tcol>>] : c \in 1..MaxC, r \in 1..MaxR, tcol \in {0, 0, 1, 2},
                       deco \in {NoDeco(MaxR), [NoDeco(MaxR) EXCEPT ![2] = <<"comment">>], [NoDeco(MaxR) EXCEPT ![1] = <<"blank", "comment">>]}}
            \* wrapped only with c = d (otherwise the column count is not determined by the file)
            ELSE {[text |-> VBlock("YES", "SPACE") \o WBlock("null1") \o CBlock(a[2]) \o AWrapped(r, a[2], per), opts |-> Opts0,
